@@ -42,9 +42,13 @@ func (c Case) String() string {
 
 func (c Case) Frontier() bool { return c.Mode.UsesFrontier() }
 
-// Ctx is the signature context of a case: mode and environment.
-func (c Case) Ctx() string {
-	s := "mode=" + string(c.Mode)
+// Ctx is the signature context: mode of the instance, whether the lineage has used another
+// replay mode before (namespace switched / migrated), and the environment.
+func (c Case) Ctx(mode config.ReplayMode, switched bool) string {
+	s := "mode=" + string(mode)
+	if switched {
+		s += "|after-mode-switch"
+	}
 	if c.ForeignDB > 0 {
 		s += "|target-has-other-db"
 	}
@@ -102,7 +106,7 @@ func (d *Driver) Close() { d.src.Close() }
 func SourceRunIDs() []string { return []string{strings.Repeat("f", 40), strings.Repeat("0", 40)} }
 
 // Open performs the real start-up bookkeeping against tgt and returns the output to replay with.
-func (d *Driver) Open(tgt Target, c Case) (*syncer.RedisOutput, error) {
+func (d *Driver) Open(tgt Target, c Case, mode config.ReplayMode) (*syncer.RedisOutput, error) {
 	d.mu.Lock()
 	defer d.mu.Unlock()
 	tr := true
@@ -114,7 +118,7 @@ func (d *Driver) Open(tgt Target, c Case) (*syncer.RedisOutput, error) {
 		ResumeFromBreakPoint: &tr, BisyncEnabled: &tr, ReplayRdbEnableRestore: &tr, ReplayTransaction: &tr,
 		KeyExists: "replace", MaxProtoBulkLen: 512 << 20, TargetDbCfg: &tdb, TargetDb: -1,
 		BatchCmdCount: c.Window, BatchTicker: 10 * time.Millisecond, BatchBufferSize: 64 * 1024, KeepaliveTicker: time.Hour,
-		ReplayRdbParallel: 1, UpdateCheckpointTicker: time.Hour, Mode: c.Mode,
+		ReplayRdbParallel: 1, UpdateCheckpointTicker: time.Hour, Mode: mode,
 		Stats: config.OutputStats{DisableLog: true, LogInterval: time.Hour},
 	}}
 	scfg := syncer.SyncerConfig{Id: 1, Input: drive.StandaloneRedis(d.src.Addr(), "7.2.0"), Output: tgt.Redis(),
@@ -125,8 +129,10 @@ func (d *Driver) Open(tgt Target, c Case) (*syncer.RedisOutput, error) {
 
 // Start is one tool start (bookkeeping + StartPoint) inside a run.
 type Start struct {
-	ReqFrom  int64 // number of the first request of this start
-	ReqDone  int64 // requests processed when StartPoint returned
+	Mode     config.ReplayMode
+	PrevMode config.ReplayMode // mode of the previous start of the lineage
+	ReqFrom  int64             // number of the first request of this start
+	ReqDone  int64             // requests processed when StartPoint returned
 	SP       syncer.StartPoint
 	Err      error
 	Initial  bool // the very first start: empty target, full sync of an empty snapshot follows
@@ -157,6 +163,9 @@ type RunLog struct {
 	FloorDone int64
 	FloorCut  int64
 	CutWhere  string
+	ModeAtCut config.ReplayMode // mode of the instance whose requests the cut falls into
+	Switched  bool              // an ancestor start (up to the cut) ran in another mode than the base run
+	BaseMode  config.ReplayMode
 }
 
 // Lineage returns the whole history this run extends.
@@ -217,7 +226,7 @@ func NewEnv(r *rand.Rand, c Case, d *Driver, f TargetFactory) *Env {
 	e := &Env{C: c, D: d, Factory: f, Watch: 30 * time.Second}
 	e.IDs = SourceRunIDs()
 	e.RunID = e.IDs[0]
-	e.Stream = gen.GenStream(r, gen.StreamOptions{Hist: "b" + strings.TrimPrefix(c.Key, "case-"), NCmds: c.NCmds, MaxDB: 2,
+	e.Stream = gen.GenStream(r, gen.StreamOptions{Hist: "b" + alnum(strings.TrimPrefix(c.Key, "case-")), NCmds: c.NCmds, MaxDB: 2,
 		PSelect: c.PSelect, PTxn: c.PTxn, PNoise: c.PNoise, MaxTxnLen: c.MaxTxn, StartDB: -1})
 	e.Stream.AppendSentinel(e.Stream.LastDB())
 	e.Units = UnitsOf(e.Stream, c.Base)
@@ -227,6 +236,16 @@ func NewEnv(r *rand.Rand, c Case, d *Driver, f TargetFactory) *Env {
 	}
 	e.Last = &e.Units[len(e.Units)-1]
 	return e
+}
+
+// alnum keeps what gen's id syntax allows inside a history tag.
+func alnum(s string) string {
+	return strings.Map(func(r rune) rune {
+		if (r >= '0' && r <= '9') || (r >= 'a' && r <= 'z') || (r >= 'A' && r <= 'Z') {
+			return r
+		}
+		return -1
+	}, s)
 }
 
 func (e *Env) streamEnd() int64 { return e.C.Base + int64(len(e.Stream.Bytes)) }
@@ -312,8 +331,8 @@ func (l *RunLog) capture(tgt Target) {
 }
 
 // connsOfSend: connections (each opens with a PING) Send creates before it reads the stream.
-func (c Case) connsOfSend() int64 {
-	if c.Frontier() {
+func connsOfSend(mode config.ReplayMode) int64 {
+	if mode.UsesFrontier() {
 		return 2
 	}
 	return 1
@@ -347,14 +366,14 @@ func (e *Env) feed(r *rand.Rand, tgt Target, out *syncer.RedisOutput, l *RunLog,
 		done = ch
 		go func() {
 			defer close(ch)
-			waitSeq(tgt, before+e.C.connsOfSend(), e.Watch)
+			waitSeq(tgt, before+connsOfSend(st.Mode), e.Watch)
 		}()
 		late = false
 	}
 	select {
 	case <-done:
 		l.Completed = true
-		if late && e.C.Frontier() {
+		if late && st.Mode.UsesFrontier() {
 			select {
 			case <-w.frontDone:
 			case er := <-ar.Done:
@@ -389,9 +408,9 @@ func (e *Env) RunBase(r *rand.Rand) (*RunLog, string) {
 	ctx := context.Background()
 	tgt := e.Factory(e.targetOptions())
 	defer tgt.Close()
-	l := &RunLog{FloorDone: -1, FloorCut: -1}
-	st := Start{ReqFrom: 1, Initial: true, Traffic: true}
-	out, err := e.D.Open(tgt, e.C)
+	l := &RunLog{FloorDone: -1, FloorCut: -1, BaseMode: e.C.Mode, ModeAtCut: e.C.Mode}
+	st := Start{ReqFrom: 1, Initial: true, Traffic: true, Mode: e.C.Mode}
+	out, err := e.D.Open(tgt, e.C, e.C.Mode)
 	if err != nil {
 		return nil, "start-up bookkeeping: " + err.Error()
 	}
@@ -428,25 +447,34 @@ type Cut struct {
 	Where     []string
 	FloorDone int64
 	FloorCut  int64
+	Mode      config.ReplayMode // mode of the instance whose requests the cut falls into
+	Switched  bool              // a start of the lineage up to the cut ran in another mode than the base run
 }
 
 // Restart rebuilds the state of `cut` in run p on a fresh target and starts the tool on it:
 // idleStarts starts without traffic (bookkeeping + StartPoint, some followed by a Send on an
-// idle feeder that is stopped), then one start that replays the rest of the stream.
-func (e *Env) Restart(r *rand.Rand, p *RunLog, cut Cut, idleStarts int, path string) (*RunLog, string) {
+// idle feeder that is stopped), then one start that replays the rest of the stream.  modes[i]
+// is the replay mode start i is configured with ("" = the mode of the previous start): a
+// different one makes the start-up bookkeeping switch / migrate the namespace.
+func (e *Env) Restart(r *rand.Rand, p *RunLog, cut Cut, idleStarts int, modes []config.ReplayMode, path string) (*RunLog, string) {
 	ctx := context.Background()
 	state := p.StateAt(cut.N)
 	tgt := e.Factory(e.targetOptions())
 	defer tgt.Close()
 	tgt.Replay(reservedWrites(state))
-	l := &RunLog{Depth: p.Depth + 1, Path: path, StartApps: state, SeqBase: cut.N, First: cut.N, FloorDone: cut.FloorDone, FloorCut: cut.FloorCut}
+	l := &RunLog{Depth: p.Depth + 1, Path: path, StartApps: state, SeqBase: cut.N, First: cut.N, FloorDone: cut.FloorDone, FloorCut: cut.FloorCut, ModeAtCut: cut.Mode, Switched: cut.Switched, BaseMode: e.C.Mode}
+	prev := cut.Mode
 	if len(cut.Where) > 0 {
 		l.CutWhere = cut.Where[0]
 	}
 	defer func() { l.capture(tgt) }()
 	for i := 0; i <= idleStarts; i++ {
-		st := Start{ReqFrom: l.SeqBase + tgt.Seq() + 1, Traffic: i == idleStarts}
-		out, err := e.D.Open(tgt, e.C)
+		st := Start{ReqFrom: l.SeqBase + tgt.Seq() + 1, Traffic: i == idleStarts, Mode: prev, PrevMode: prev}
+		if i < len(modes) && modes[i] != "" {
+			st.Mode = modes[i]
+		}
+		prev = st.Mode
+		out, err := e.D.Open(tgt, e.C, st.Mode)
 		if err != nil {
 			st.Err = fmt.Errorf("start-up bookkeeping: %w", err)
 			st.ReqDone = l.SeqBase + tgt.Seq()
@@ -487,7 +515,7 @@ func (e *Env) Restart(r *rand.Rand, p *RunLog, cut Cut, idleStarts int, path str
 			ss := &drive.Session{IDs: e.IDs, Out: out, Watch: e.Watch}
 			before := tgt.Seq()
 			ar := ss.SendAof(ctx, sp.Offset, nil, false, 4096)
-			up := waitSeq(tgt, before+e.C.connsOfSend(), e.Watch)
+			up := waitSeq(tgt, before+connsOfSend(st.Mode), e.Watch)
 			if _, ok := ar.Stop(e.Watch); !ok || !up {
 				return nil, "idle Send: connections not opened or Send did not return after cancel"
 			}
